@@ -552,7 +552,7 @@ def removesmall(v, tol=100):
         >>> print(a[3])
 
     """
-    return np.where(abs(v) < tol * _eps, 0, v)
+    return np.where(np.abs(v) < tol * _eps, 0, v)
 
 
 if __name__ == '__main__':  # pragma: no cover
